@@ -252,7 +252,7 @@ def _watched(judge):  # noqa
     """a bin search that does not terminate is a violation, not a hang: at most 400 executed lines of
     hist_functions per call on average (12 edges need a few dozen)"""
     def wrapped(case):
-        n = len(case.get("fills") or []) + len(case.get("values") or []) + len(case.get("values2") or [])
+        n = len(case.get("fills") or []) + len(case.get("values") or []) + len(case.get("values2") or []) + len(case.get("values3") or [])
         try:
             with instr.Watchdog([lena.structures.hist_functions], 20000 + 4000 * n):
                 return judge(case)
@@ -288,7 +288,13 @@ def element_case(draw):
         for _ in range(draw(st.integers(0, 8))):
             c = [draw(coordinate(e)) for e in edges]
             vals2.append([c, draw(st.one_of(st.none(), st.just({"a": 1})))])
-    return {"edges": edges, "values": vals, "values2": vals2}
+    vals3 = None
+    if vals2 is not None and draw(st.booleans()):
+        vals3 = []
+        for _ in range(draw(st.integers(0, 6))):
+            c = [draw(coordinate(e)) for e in edges]
+            vals3.append([c, None])
+    return {"edges": edges, "values": vals, "values2": vals2, "values3": vals3}
 
 
 def _judge_element(case):
@@ -298,7 +304,7 @@ def _judge_element(case):
     el = Histogram(hedges)
     shape = tuple(len(e) - 1 for e in edges)
     # rounds of fill* compute, with reset() between them: every round is a histogram of its own values
-    rounds = [case["values"]] + ([case["values2"]] if case.get("values2") is not None else [])
+    rounds = [case["values"]] + [case[k] for k in ("values2", "values3") if case.get(k) is not None]
     for rnd, values in enumerate(rounds):
         if rnd:
             el.reset()
@@ -391,7 +397,7 @@ CHECKS = [
           rule="1-dim edges up to 12, 1-8 coordinates: get_bin_on_value_1d == bisect_right-1."),
     Check("element", judge_element, strategy=lambda tier: element_case(),
           quick=1200, thorough=60000,
-          rule="Histogram element with bare and (data, context) values, weight 1, against a bisect histogram; in a third of the cases reset() and a second round of values judged as a histogram of its own. All C06 judges run under a step budget for hist_functions (a search that does not return is a violation)."),
+          rule="Histogram element with bare and (data, context) values, weight 1, against a bisect histogram; in a third of the cases reset() and a second (sometimes a third) round of values, each judged as a histogram of its own. All C06 judges run under a step budget for hist_functions (a search that does not return is a violation)."),
     Check("invalid_edges", judge_invalid, strategy=strat_invalid, quick=800, thorough=20000,
           rule="non-increasing / too short / empty edges must raise LenaValueError, valid ones must be accepted."),
 ]
